@@ -44,6 +44,43 @@ def posterior8 (sigma re im : Float) (b : Nat) : Float :=
 def posteriorB (sigma r : Float) : Float :=
   Float.neg (((r + 1) * (r + 1)) / (2 * sigma * sigma)) + (((r - 1) * (r - 1)) / (2 * sigma * sigma))
 
+/-- an IEEE-754 binary64 value as an exact dyadic rational `m · 2^e` (`none` for ±inf / NaN) -/
+def dyadic (x : Float) : Option (Int × Int) :=
+  let n : Nat := x.toBits.toNat
+  let frac : Nat := n % 2 ^ 52
+  let ex : Nat := (n / 2 ^ 52) % 2048
+  let neg : Bool := n / 2 ^ 63 == 1
+  if ex == 2047 then none
+  else
+    let (m, e) : Nat × Int := if ex == 0 then (frac, -1074) else (2 ^ 52 + frac, (ex : Int) - 1075)
+    some (if neg then -(m : Int) else (m : Int), e)
+
+def dmul (a b : Int × Int) : Int × Int := (a.1 * b.1, a.2 + b.2)
+def dadd (a b : Int × Int) : Int × Int :=
+  let e := if a.2 ≤ b.2 then a.2 else b.2
+  (a.1 * 2 ^ (a.2 - e).toNat + b.1 * 2 ^ (b.2 - e).toNat, e)
+
+/-- the conclusion of `C04Round`/`C14Round.bpsk_rounded` at u = 2⁻⁵³, decided EXACTLY in integer arithmetic on the
+implementation's output: |impl − (−2r/σ²)| ≤ γ₄·|−2r/σ²|  ⇔  |impl·σ² + 2r|·(2⁵³ − 4) ≤ 4·|2r|.
+`none` = not judged (an intermediate result overflows or is subnormal: outside the standard model) -/
+def bpskWithinProvedBound (sigma r impl : Float) : Option Bool :=
+  let minNormal : Float := 2.2250738585072014e-308
+  let s2 := sigma * sigma
+  let q := (-2.0 : Float) / s2
+  let okRange := s2.isFinite && s2.abs ≥ minNormal && q.isFinite && q.abs ≥ minNormal &&
+    impl.isFinite && (impl.abs ≥ minNormal || r == 0)
+  if !okRange then none
+  else
+    match dyadic sigma, dyadic r, dyadic impl with
+    | some ds, some dr, some di =>
+      let a := dadd (dmul di (dmul ds ds)) (dmul (2, 0) dr)
+      let b := dmul (2, 0) dr
+      let e := if a.2 ≤ b.2 then a.2 else b.2
+      let lhs := a.1.natAbs * 2 ^ (a.2 - e).toNat * (2 ^ 53 - 4)
+      let rhs := 4 * b.1.natAbs * 2 ^ (b.2 - e).toNat
+      some (decide (lhs ≤ rhs))
+    | _, _, _ => none
+
 def showPts (l : List (Float × Float)) : String :=
   if l.isEmpty then "-" else ",".intercalate (l.map (fun p => hex p.1 ++ "." ++ hex p.2))
 
@@ -69,7 +106,10 @@ def handle (inp out : List String) : String :=
        | some impl =>
          let m := bpskDemod F s r
          let want := posteriorB s r
-         let prop := if !close impl want 1e-9 1e-12 then some s!"bpsk-llr-is-not-the-posterior-log-ratio want={want} got={impl}" else none
+         let prop := if !close impl want 1e-9 1e-12 then some s!"bpsk-llr-is-not-the-posterior-log-ratio want={want} got={impl}"
+           else if bpskWithinProvedBound s r impl == some false then
+             some s!"bpsk-llr-outside-the-proved-rounding-bound-of-4-roundings (C14Round.bpsk_rounded, u = 2^-53) got={impl}"
+           else none
          if close impl m 1e-12 1e-300 then verdict out out prop else verdict [hex m] out prop
        | none => "BADLINE c14 demb out")
     | _, _, _ => "BADLINE c14 demb"
